@@ -296,6 +296,10 @@ func TestCheck(t *testing.T) {
 			fmt.Println("replay: schedule findings carry their trace in the replay file")
 			return
 		}
+		if rp.Model == "memory-cache" {
+			replayMemcache(t, rp.Path)
+			return
+		}
 		for _, c := range configs {
 			if c.Mode != rp.Model {
 				continue
@@ -315,7 +319,7 @@ func TestCheck(t *testing.T) {
 		}
 		return
 	}
-	r.Rule = fmt.Sprintf("explicit-state BFS to depth %d over histories of {req(k), resp(k, body, status), tick(TTL-1ns | 1ns | 1s)} on three keys differing in method / selected path parameter, for the caching remedy (cache size: two entries fit / all fit) and the response-based throttling remedy (relative / absolute retry-after); every transition runs the real plugin + MemoryCache (with its expiry sleeper goroutines) in a virtual-time bubble; plus schedules of concurrent stores and store-vs-expiry; distinct = state keys", depth)
+	r.Rule = fmt.Sprintf("explicit-state BFS to depth %d over histories of {req(k), resp(k, body, status), tick(TTL-1ns | 1ns | 1s)} on three keys differing in method / selected path parameter, for the caching remedy (cache size: two entries fit / all fit) and the response-based throttling remedy (relative / absolute retry-after); every transition runs the real plugin + MemoryCache (with its expiry sleeper goroutines) in a virtual-time bubble; plus the MemoryCache component by itself (size 3, ttl 2 s: histories of stores of sizes 1/2/4 under three keys incl. overwrites, clock steps) ; plus schedules of concurrent stores and store-vs-expiry; distinct = state keys", depth)
 	r.Assume("safety only: a miss is never a violation (hits are counted in the evidence)", "a response stored exactly TTL ago may still be replayed (boundary instant left open)", "absolute retry-after: 1 microsecond of slack for the float64 seconds representation")
 	if r.Parallel(t, 16) {
 		r.Finish(t)
@@ -349,6 +353,7 @@ func TestCheck(t *testing.T) {
 			}
 		}
 	}
+	memcacheFamily(t, r, &shard)
 	r.Add("traces_validated_against_impl", r.Counters["transitions"])
 	schedules(t, r)
 	r.Finish(t)
